@@ -143,16 +143,26 @@ def run(shard, ctx):
             tabl = c.load()
             cscd_codes = tabl._target_descriptor_type_codes if spc == 4 else tabl._cscd_descriptor_type_codes
             seg_codes = tabl._segment_descriptor_type_codes
-            for i in range(n * 3):
+            names_ = ["bogus_key", "_", "_comment", "_dc", "__doc__", "__class__", "Cat", "cat ", "descriptor_type_code_", "x", "0", ""]
+            values_ = [1, 0, None, False, True, "", "text", {}, [], b"", 3.5]
+            forced = [(m, nm, vl) for m in (0, 1) for nm in names_ for vl in values_]
+            for i in range(n * 3 + len(forced)):
                 a, _exp = DO.GEN[c.custom](rng, ("counts", rng.choice([1, 2]), rng.choice([1, 2]), 0))
                 kw = a["_kwargs"]
                 mut = i % 10
                 want = ("ValueError",)
+                # unknown keys of every look (plain, underscored, dunder, near-misses) holding every kind of value
+                bogus_name = rng.choice(names_)
+                bogus_value = rng.choice(values_)
+                if i >= n * 3:
+                    mut, bogus_name, bogus_value = forced[i - n * 3]  # every look of key x every kind of value, once each
+                if bogus_name == "bogus_key":
+                    bogus_name = "bogus_key_%d" % i
                 if mut == 0:
-                    rng.choice(kw[lk])["bogus_key_%d" % i] = 1
+                    rng.choice(kw[lk])[bogus_name] = bogus_value
                     klass = "xcopy%d.cscd_unknown_key" % spc
                 elif mut == 1:
-                    rng.choice(kw["segment_descriptor_list"])["bogus_key_%d" % i] = 1
+                    rng.choice(kw["segment_descriptor_list"])[bogus_name] = bogus_value
                     klass = "xcopy%d.segment_unknown_key" % spc
                 elif mut == 2:
                     code = rng.choice([x for x in range(256) if x not in cscd_codes] + ["no such descriptor"])
@@ -204,6 +214,9 @@ def run(shard, ctx):
                     klass = "xcopy%d.segment_code_unimplemented" % spc
                     want = ("NotImplementedError", "ValueError")  # refusal either way; the statement does not separate the two
                 wit = {"cmd": cname, "mutation": klass, "args": a}
+                if mut in (0, 1):
+                    wit["unknown_key"] = [bogus_name, repr(bogus_value)]
+                    ctx.add("unknown_key_forms", "%r=%s" % (bogus_name if not bogus_name.startswith("bogus") else "bogus_key_N", type(bogus_value).__name__))
                 ctx.case((cname, klass, repr(a)), True, sample={"cmd": cname, "mutation": klass} if ctx.want_sample() else None)
                 ctx.add("invalid_classes", klass)
                 attempt(ctx, cname, klass, want, lambda: harness.construct(c, "spc", DO.fresh(a)), None, wit)
@@ -275,9 +288,18 @@ def attached_without_blocksize(ctx, rng, names):
     from vmon.spec import cdb as S
 
     def device(devtype):
+        bl = rng.choice([512, 4096])
+
         def fill(cmd):
             if cmd.cdb[0] == 0x12 and len(cmd.datain):
                 cmd.datain[0] = devtype
+            elif cmd.cdb[0] == 0x25 and len(cmd.datain) >= 8:  # READ CAPACITY(10): last LBA, block length
+                cmd.datain[0:8] = (0x003FFFFF).to_bytes(4, "big") + bl.to_bytes(4, "big")
+            elif cmd.cdb[0] == 0x9E and len(cmd.datain) >= 12:  # READ CAPACITY(16)
+                cmd.datain[0:12] = (0x003FFFFF).to_bytes(8, "big") + bl.to_bytes(4, "big")
+            elif cmd.cdb[0] == 0x1A and len(cmd.datain) >= 16:  # MODE SENSE(6): one block descriptor announcing the block length
+                cmd.datain[0:12] = bytes([23, 0, 0, 8, 0, 0, 0, 0, 0]) + bl.to_bytes(3, "big")
+                cmd.datain[12:14] = bytes([0x0A, 0x0A])
         return harness.Recorder(E.spc, fill)
 
     def set_of(dev):
@@ -311,8 +333,20 @@ def attached_without_blocksize(ctx, rng, names):
                 if c.xfer != "ata":
                     kw.pop("blocksize", None)
                 kw.update(c.facade_fixed)
-                wit = {"cmd": name, "devtype": devtype, "attached": how, "table": setname, "args": a}
-                ctx.case((name, how, devtype), True, sample={"cmd": name, "devtype": devtype, "attached": how} if ctx.want_sample() else None)
+                # what the facade did before must not supply the missing block size: capacity, mode and identity queries answered
+                # with plausible data (a 512- or 4096-byte-block disk), also after moving the facade to another device and back
+                before = rng.choice([(), ("readcapacity10",), ("readcapacity16",), ("readcapacity16", "readcapacity10", "inquiry"), ("inquiry", "modesense6"), ("testunitready",)])
+                for m in before:
+                    try:
+                        if m == "modesense6":
+                            s.modesense6(page_code=0x0A)
+                        else:
+                            getattr(s, m)()
+                        ctx.count("attached_facade_history_calls")
+                    except Exception:  # noqa: BLE001
+                        pass  # e.g. the table of this device type has no such command
+                wit = {"cmd": name, "devtype": devtype, "attached": how, "table": setname, "called_before": list(before), "args": a}
+                ctx.case((name, how, devtype, before), True, sample={"cmd": name, "devtype": devtype, "attached": how, "called_before": list(before)} if ctx.want_sample() else None)
                 ctx.count("attached_facade_attempts")
                 attempt(ctx, "%s after %s to device type %02Xh" % (c.facade, how, devtype), "blocksize.attached_facade.%s" % name, ("MissingBlocksizeException",),
                         lambda: getattr(s, c.facade)(**kw), dev, wit)
